@@ -530,7 +530,7 @@ pub fn core_exp(e: &PreExp, lexeme: bool) -> bool {
         },
         PreExp::Variable(n) => plain_var(n.value()),
         PreExp::CompoundVariable(c) => plain_run_s(&c.name) && !c.indexes.is_empty() && core_idx(&c.indexes, lexeme),
-        PreExp::ArrayAccess(a) => plain_run_s(&a.name) && !a.accesses.is_empty() && a.accesses.iter().all(|x| core_exp(x, lexeme)),
+        PreExp::ArrayAccess(a) => plain_run_s(&a.name) && a.name != "not" && !a.accesses.is_empty() && a.accesses.iter().all(|x| core_exp(x, lexeme)),
         PreExp::FunctionCall(_, f) => !range_sugar(f) && f.name != "not" && !f.name.is_empty() && f.name.chars().all(is_letter) && f.args.iter().all(|x| core_exp(x, lexeme)),
         PreExp::BlockFunction(b) => !b.exps.is_empty() && (b.kind.to_string() != "abs" || b.exps.len() == 1) && b.exps.iter().all(|x| core_exp(x, lexeme)),
         PreExp::BlockScopedFunction(b) => core_for(&b.iters, lexeme) && !b.iters.is_empty() && core_exp(&b.exp, lexeme),
